@@ -43,6 +43,23 @@ pub fn nodes_of(t: &Type) -> usize {
     }
 }
 
+/// some variant written in the environment or the requested types has only alternatives whose size estimate is `None`
+/// (each mentions a type that is being defined)
+fn has_all_recursive_variant(env: &TypeEnv, tys: &[Type]) -> bool {
+    fn walk(env: &TypeEnv, t: &Type) -> bool {
+        use TypeInner::*;
+        match t.as_ref() {
+            Opt(x) | Vec(x) => walk(env, x),
+            Record(fs) => fs.iter().any(|f| walk(env, &f.ty)),
+            Variant(fs) => {
+                (!fs.is_empty() && fs.iter().all(|f| candid_parser::random::verif_size(env, &f.ty).is_none())) || fs.iter().any(|f| walk(env, &f.ty))
+            }
+            _ => false,
+        }
+    }
+    env.0.values().any(|t| walk(env, t)) || tys.iter().any(|t| walk(env, t))
+}
+
 pub struct Cfg {
     pub depth: Option<i64>,
     pub size: Option<i64>,
@@ -148,7 +165,16 @@ pub fn eval(out: &mut Out, op: &str, args: &[&str]) -> Option<String> {
                     let bound = cfg.depth.unwrap_or(10).max(0) as usize + scoped_depths(&toml) as usize + 1 + nodes;
                     if let Some(d) = vals.args.iter().map(depth_of).max() {
                         if d > bound {
-                            out.oracle_failure("a generated value nests deeper than the configured depth allows", &line);
+                            // with the budget spent a variant keeps the alternatives of the smallest size estimate; the
+                            // estimate is `None` for anything that mentions a type under recursion, so a variant all of
+                            // whose alternatives do is chosen from uniformly for as long as the seed has entropy
+                            // (recorded finding KF-C20-recursive-alternatives)
+                            let why = if has_all_recursive_variant(&env, &tys) {
+                                "a generated value nests deeper than the configured depth allows [every alternative of some variant is recursive]"
+                            } else {
+                                "a generated value nests deeper than the configured depth allows"
+                            };
+                            out.oracle_failure(why, &line);
                         }
                     }
                     "nopanic".into()
